@@ -102,7 +102,12 @@ FsBefore(T, i) == LET prev == { j \in 1..(i - 1) : T.ev[j].side = "D" } IN
 C10(T) ==
   IF ~Has(T, "C10") THEN {} ELSE
   { V("C10", "internal-error-leaked", i, Kf(T), T.ev[i].exc, T.ev[i].excw) :
-      i \in { i \in Calls(T) : T.ev[i].exc \notin (ProtocolExc \cup {"none"}) } }
+      i \in { i \in Calls(T) : /\ T.ev[i].exc \notin (ProtocolExc \cup {"none"})
+                               \* C10 quantifies over PDUs, API calls and timer advances - not over a filestore that refuses
+                               \* operations: an OS-level error of the filestore that surfaces after the environment rejected
+                               \* a filestore operation earlier in the run is outside its premises (covered by C01 / C05 / C14)
+                               /\ ~(/\ T.ev[i].exc \in {"FileNotFoundError", "PermissionError", "IsADirectoryError"}
+                                    /\ \E j \in 1..i : "wrej" \in DOMAIN T.ev[j] /\ T.ev[j].wrej) } }
   \cup { V("C10", "unretrieved-pdus-error-with-empty-queue", i, Kf(T), T.ev[i].exc, T.ev[i].excw) :
       i \in { i \in Calls(T) : T.ev[i].exc = "UnretrievedPdusToBeSent" /\ T.ev[i].pre.nready = 0 } }
   \cup { V("C10", "rejected-pdu-changed-state", i, Kf(T), T.ev[i].exc, T.ev[i].excw) :
@@ -305,26 +310,34 @@ WHasDir(tree, p) == \E f \in tree : f.p = p /\ f.dir
 WFile(tree, p) == CHOOSE f \in tree : f.p = p /\ ~f.dir
 WHasFile(tree, p) == \E f \in tree : f.p = p /\ ~f.dir
 WPut(tree, p, d) == { f \in tree : f.p # p } \cup { [p |-> p, dir |-> FALSE, d |-> d] }
-C05Step(m, e) ==
-  LET mds == SelectSeq(e.ind, LAMBDA x : x.k = "metadata_recv" /\ x.dstName # "none")
+C05Step(mIn, e) ==
+  LET m == IF e.pre.state = "IDLE" THEN [mIn EXCEPT !.path = "", !.complete = FALSE] ELSE mIn   \* a new transaction: no resolved path yet
+      mds == SelectSeq(e.ind, LAMBDA x : x.k = "metadata_recv" /\ x.dstName # "none")
       m1 == IF mds # <<>> /\ e.arg.t = "MD" THEN
                LET p0 == mds[1].dstName
                    p == IF WHasDir(m.tree, p0) THEN p0 \o "/" \o e.arg.srcBase ELSE p0 IN
-               IF WHasDir(m.tree, p) THEN [m EXCEPT !.path = ""] ELSE [tree |-> WPut(m.tree, p, <<>>), path |-> p]
+               IF WHasDir(m.tree, p) THEN [m EXCEPT !.path = "", !.complete = FALSE]
+               ELSE IF e.wrej THEN [m EXCEPT !.path = p, !.complete = FALSE]   \* the filestore refused to create / truncate: nothing changes
+               ELSE [tree |-> WPut(m.tree, p, <<>>), path |-> p, complete |-> FALSE]
             ELSE m
       acc == e.arg.t = "FD" /\ e.exc = "none" /\ ~e.wrej /\ m1.path # "" /\ WHasFile(m1.tree, m1.path)
              /\ \E k \in DOMAIN e.ind : e.ind[k].k = "seg_recv" /\ e.ind[k].off = e.arg.off /\ e.ind[k].len = Len(e.arg.data)
       m2 == IF acc THEN [m1 EXCEPT !.tree = WPut(@, m1.path, WWrite(WFile(m1.tree, m1.path).d, e.arg.off, e.arg.data))] ELSE m1
-      del == \E k \in DOMAIN e.ind : e.ind[k].k = "finished" /\ e.ind[k].fstat = "DISCARDED_DELIBERATELY"
+      \* a file whose delivery the receiver has already reported complete (Finished PDU: data complete, file retained) is
+      \* not an incomplete file: a later cancellation must not delete it (C12: "an incomplete file is deleted exactly when ...")
+      del == ~m2.complete /\ \E k \in DOMAIN e.ind : e.ind[k].k = "finished" /\ e.ind[k].fstat = "DISCARDED_DELIBERATELY"
       m3 == IF del /\ m2.path # "" THEN [m2 EXCEPT !.tree = { f \in @ : f.p # m2.path \/ f.dir }] ELSE m2
-  IN m3
+      m4 == IF \E k \in DOMAIN e.out : e.out[k].t = "FIN" /\ e.out[k].deliv = "DATA_COMPLETE" /\ e.out[k].fstat = "FILE_RETAINED"
+            THEN [m3 EXCEPT !.complete = TRUE]
+            ELSE m3
+  IN m4
 C05(T) ==
   IF ~Has(T, "C05") THEN {} ELSE
   LET ds == SetToSortSeq(OfSide(T, "D"), <)
       \* fold: acc = [m, bad (set of event indices)]
       r == FoldLeft(LAMBDA acc, i : LET m2 == C05Step(acc.m, T.ev[i]) IN
                                     [m |-> m2, bad |-> IF ToSet(T.ev[i].fs) # m2.tree THEN acc.bad \cup {i} ELSE acc.bad],
-                    [m |-> [tree |-> ToSet(T.fs0), path |-> ""], bad |-> {}], ds)
+                    [m |-> [tree |-> ToSet(T.fs0), path |-> "", complete |-> FALSE], bad |-> {}], ds)
   IN { V("C05", "destination-tree-differs-from-the-write-model", i, Kf(T), "", "") : i \in r.bad }
 
 \* ===== C06: NAKs request exactly what is missing =====
@@ -599,7 +612,10 @@ C14(T) ==
                       inProgress == CancelInProgress(T, i, e.side, f.tid.seq)
                       exempt == f.k = "abandon" /\ inProgress IN
                   (IF ~exempt /\ f.k # code THEN B("callback-kind-differs-from-the-configured-handler-code", f) ELSE {})
-                  \cup (IF ~f.tid.set \/ f.tid.seq # e.pre.tseq THEN B("callback-with-wrong-or-missing-transaction-id", f) ELSE {})
+                  \* (the transaction of the call: the running one, or the one the inbound PDU has just started)
+                  \cup (IF ~f.tid.set \/ (e.pre.tidSet /\ f.tid.seq # e.pre.tseq)
+                           \/ (~e.pre.tidSet /\ e.call = "fsm" /\ e.arg.t # "none" /\ f.tid.seq # e.arg.h.qv)
+                        THEN B("callback-with-wrong-or-missing-transaction-id", f) ELSE {})
                   \* (an ignored fault may legitimately be declared again by a later evaluation in the same call - advancement and
                   \* step handler, packet and timer - so the "invoked once" clause is judged for cancelling / abandoning codes, after
                   \* which the same condition cannot be declared again; repeated ignore callbacks are left to conformance)
